@@ -633,6 +633,15 @@ def generate(rng: random.Random, profile: Profile | None = None) -> dict:
                      'vt\x0bff\x0cfs\x1c', 'nb\xa0sp', '007', '1.50', '+1', ' 12 ', '.5', '1e2',
                      '0x10', '-0'])
             rows.append(row)
+        if g.chance(0.25):
+            # an id listed on more than one line (a released table with superseding lines
+            # appended): which line wins is not stated anywhere, but reloading the file and
+            # the load order relative to the lexicons must still not matter
+            for _ in range(rng.randint(1, 2)):
+                src = rng.choice(rows)
+                row = {'ili': src['ili'], 'status': rng.choice(ILI_STATUSES),
+                       'definition': 'superseding line for %s' % src['ili']}
+                rows.insert(rng.randint(0, len(rows)), row)
         cols = ['ili']
         if any('status' in r for r in rows):
             cols.append('status')
